@@ -215,7 +215,7 @@ def check_prune_recheck(ctx, rid, prog):
     rc = list(cn.calls('DependencyScan::RecomputeOutputsDirty'))
     sites = [e for e in cn.events('asg') if is_enum('Plan::kWantNothing')(e.get('r'))] + list(cn.calls('Plan::CleanNode'))
     for e in sites:
-        ok = len(rc) == 1 and cn.dominates_ev(rc[0], e) and mentions_var(rc[0].get('args'), 'outputs_dirty')
+        ok = len(rc) == 1 and cn.dominates_ev(rc[0], e) and (mentions_var(rc[0].get('args'), 'outputs_dirty') or not rc[0].get('disc'))
         ctx.check(rid, ok, cn.name, 'CleanNode:prune-without-recheck', cn.where(e),
                   'pruning (un-want / recursion) happens only after the scan re-examined the edge\'s outputs')
     if not sites:
@@ -409,7 +409,16 @@ def check_recheck_is_full(ctx, rid, prog):
         if 'bool *' in (p.get('ty') or '') or 'bool*' in (p.get('ty') or ''):
             outp = p['n']
     if outp is None:
-        raise AnalysisBroken('RecomputeOutputsDirty has no bool* out-parameter')
+        # the verdict is the return value: every return hands back what the full check said
+        from rules import deep_resolve as _dr
+        rets = list(rod.events('ret'))
+        for e in rets:
+            r = _dr(rod, e.get('e'))
+            ctx.check(rid, mentions_call(r, 'RecomputeOutputsDirtyCache::all') and mentions_var(r, 'most_recent_input'), rod.name,
+                      'recheck:verdict-not-from-full-check', rod.where(e),
+                      'the re-check returns exactly what RecomputeOutputsDirtyCache::all(most_recent_input) says: `%s`' % (e.get('src') or '')[:70])
+        ctx.check(rid, bool(rets), rod.name, 'recheck:success-without-verdict', rod.loc, 'the re-check returns its verdict')
+        return
     stores = [e for e in rod.stores() if mentions_var(e.get('l'), outp) and strip(e.get('l')).get('k') != 'var']
     from rules import deep_resolve
 
